@@ -518,6 +518,11 @@ impl Hist {
                 None => continue,
             };
             let b = self.st.p.base(i);
+            if b != i {
+                // a `sum(0)` result: today an alias of its operand (same slot) - judged through the operand's own
+                // handle, so that an implementation returning an independent copy is not accused
+                continue;
+            }
             self.slot_checks += 1;
             let g = grad_of(h);
             match (&g, &self.slot[b]) {
